@@ -178,7 +178,7 @@ def stage(work, tier, seed, variants=(False, True), witnesses=True):
             progs += [rc.random_prog(rnd, vikja) for _ in range(40)]
         # (A) exhaustive
         r = tlc_with_progs(work, "rcmc-" + vt, progs, cfg("Spec", vikja, "<- TheProgs", MODEL_INVS), workers=NCPU,
-                           timeout=1500 if tier == "quick" else 7200)
+                           timeout=1500 if tier == "quick" else 2400)
         if r.get("timeout"):
             raise Inconclusive("exhaustive RelayConc run timed out (vikja=%s)" % vikja)
         res["model"].append(dict(vikja=vikja, programs=len(progs), distinct=r.get("distinct"), generated=r.get("generated"), wall_s=round(r["wall"], 1),
